@@ -14,7 +14,7 @@ PROP = "C17"
 LEVEL = "model_checking"
 RULE = (
     "BFS over all histories of {update_dm(d) : d in dm0,dm0+15,dm0+30,dm0-10} U {update_period(p) : p in p0,p0(1+1e-3),p0(1+2.5e-3),"
-    "p0(1-1e-3)} up to depth 4 (quick) / 5 (thorough) on cubes (3,4,16) and (5,2,12) with all-distinct contents (plus a 1-sub-band "
+    "p0(1-1e-3),1.37p0} up to depth 4 (quick) / 5 (thorough) on cubes (3,4,16) and (5,2,12) with all-distinct contents (plus a 1-sub-band "
     "cube); state key = all mutable fields of the object (data bytes, dm, period, internal shift arrays); in every state: cube == fresh "
     "cube re-tuned directly to the reported (dm, period) in both call orders, every profile is a rotation of the folded profile, dm/period "
     "report the last targets, and (dm0,p0) gives the original bits. Non-trivial = histories of length >= 2"
@@ -27,7 +27,7 @@ REQUIRED_OUTCOMES = ["state/ok", "state/back_to_folding_values", "state/repeat_n
 
 
 def bounds(tier: str) -> dict:
-    return {"depth": 4 if tier == "quick" else 5, "cubes": [[3, 4, 16], [5, 2, 12], [4, 1, 10]], "alphabet": 8}
+    return {"depth": 4 if tier == "quick" else 5, "cubes": [[3, 4, 16], [5, 2, 12], [4, 1, 10]], "alphabet": 9}
 
 
 def shards(tier: str, seed: int) -> list:
@@ -35,7 +35,7 @@ def shards(tier: str, seed: int) -> list:
     out = []
     for ci, cube in enumerate(b["cubes"]):
         # split the first operation over shards
-        for first in range(8):
+        for first in range(len(_ops())):
             out.append({"cube": cube, "depth": b["depth"], "first": first})
     if tier == "thorough":
         out.append({"cube": b["cubes"][0], "depth": 0, "first": -1, "random": 400})
@@ -47,7 +47,9 @@ DM0, P0 = 50.0, 0.016
 
 def _ops():
     return [("dm", DM0), ("dm", DM0 + 15), ("dm", DM0 + 30), ("dm", DM0 - 10),
-            ("p", P0), ("p", P0 * (1 + 1e-3)), ("p", P0 * (1 + 2.5e-3)), ("p", P0 * (1 - 1e-3))]
+            ("p", P0), ("p", P0 * (1 + 1e-3)), ("p", P0 * (1 + 2.5e-3)), ("p", P0 * (1 - 1e-3)),
+            # a large period change: the bin width changes enough for the DM shifts (in bins) to differ
+            ("p", P0 * 1.37)]
 
 
 def _fresh(shape):
